@@ -52,6 +52,8 @@ class Rule:
         """Fail closed if fewer instances than confirmed by hand were seen."""
         if got < want:
             self.unanalysable("%s: saw %d instance(s), floor is %d" % (what, got, want))
+        else:
+            self.notes.append("instances: %s = %d (floor %d)" % (what, got, want))
 
 
 class Report:
